@@ -1086,10 +1086,12 @@ class PositiveDecimal(__Decimal):
         integer_part = PositiveInteger(start, end, is_extensible)
         if start == 0:
             if is_extensible:
-                no_integer_part = _pre.Pregex().not_preceded_by(_cl.AnyDigit())
+                no_integer_part = _pre.Pregex().not_preceded_by(_cl.AnyDigit()) + _qu.Optional("+")
             else:
-                no_integer_part = _asr.NonWordBoundary()
-            no_integer_part += _qu.Optional("+")
+                no_integer_part = _op.Either(
+                    _asr.NonWordBoundary() + '+',
+                    _asr.NonWordBoundary().not_preceded_by(_op.Either('+', '-'))
+                )
         else:
             no_integer_part = None
         super().__init__(integer_part, no_integer_part, min_decimal, max_decimal, is_extensible)
